@@ -410,6 +410,7 @@ pub const CLASSINGS: &[(&str, usize)] = &[
     ("zeroed", 1),
     ("zeroed", 2),
     ("zeroslot", 1),
+    ("zeroslot0", 1),
     ("custom", 1),
     ("single", 1),
 ];
